@@ -120,6 +120,8 @@ def opsMail (s : Store) : List String → Option (Store × String)
     if !s.has (unhex box) then some (s, "no") else some (s, if cmd = "close" then "ok" else "no")
   | ["m.dump"] => some (s, dumpStore s)
   | ["m.lsub"] => some (s, hexList s.shownSubs)
+  | ["m.lsubstar"] => some (s, hexList (ListMatch.filter s.shownSubs [] [42]))
+  | ["m.liststar"] => some (s, hexList (ListMatch.filter (s.boxes.map (·.name)) [] [42]))
   | ["m.log"] => some (s, " ".intercalate (s.log.reverse.map (fun e => s!"{e.inc}:{hexOut e.name}:{e.uid}:{e.msg}")))
   | _ => none
 
